@@ -4,6 +4,7 @@ import (
 	"fmt"
 	"go/token"
 	"go/types"
+	"sort"
 	"strconv"
 	"strings"
 
@@ -918,7 +919,88 @@ func c15Round4b(c *core.Ctx, pkg string) {
 	fieldWiseCopies(c, pkg)
 	c15RemoveRoot(c)
 	c15SelfSend(c, pkg)
+	c15CallbacksDoNotBlock(c, pkg)
 	c15BoltScan(c)
+	c15MemoryPrefixNewest(c)
+}
+
+// c15MemoryPrefixNewest — R15.14 "the newest version, whether from the in-memory or the
+// on-disk store": a prefix query to MemoryStore.Get descends to the newest packet below the
+// node it found whenever it found one — the decision to descend depends on the query (prefix)
+// and on the node existing, not on whether a packet happens to be stored under the queried
+// name itself. BoltStore scans the whole prefix; a MemoryStore that stops at a packet stored
+// at the prefix answers with that packet for ever, whatever newer versions exist below it.
+func c15MemoryPrefixNewest(c *core.Ctx) {
+	fn := c.Fn("R15.14", "std/object", "MemoryStore", "Get")
+	if fn == nil {
+		return
+	}
+	var prefix *ssa.Parameter
+	for _, prm := range fn.Params {
+		if b, ok := prm.Type().Underlying().(*types.Basic); ok && b.Kind() == types.Bool {
+			prefix = prm
+		}
+	}
+	// the lookup: a static call returning a pointer to a node type of this package
+	var look *ssa.Call
+	core.Instrs(fn, func(in ssa.Instruction) {
+		cl, ok := in.(*ssa.Call)
+		if !ok || look != nil {
+			return
+		}
+		cal := cl.Call.StaticCallee()
+		if cal == nil || cal.Signature.Recv() == nil || cal.Signature.Results().Len() != 1 {
+			return
+		}
+		if types.Identical(cal.Signature.Recv().Type(), cal.Signature.Results().At(0).Type()) && cal.Signature.Params().Len() > 0 {
+			look = cl
+		}
+	})
+	if prefix == nil || look == nil {
+		c.Und("R15.14", "anchor:MemoryStore.Get lookup", "-", "no boolean parameter or no node lookup found in MemoryStore.Get")
+		return
+	}
+	nodeT := look.Type()
+	isDescend := func(in ssa.Instruction) bool {
+		cl, ok := in.(*ssa.Call)
+		if !ok || cl == look {
+			return false
+		}
+		cal := cl.Call.StaticCallee()
+		return cal != nil && cal.Signature.Recv() != nil && cal.Signature.Params().Len() == 0 &&
+			types.Identical(cal.Signature.Recv().Type(), nodeT) && cal.Signature.Results().Len() == 1 &&
+			types.Identical(cal.Signature.Results().At(0).Type(), nodeT)
+	}
+	notPrefix := &core.Atom{Name: "prefix-query", Match: func(cond ssa.Value) (int, int) {
+		if core.Strip(cond) == ssa.Value(prefix) {
+			return core.Iff(true)
+		}
+		if x, ok := core.StripNot(cond); ok && core.Strip(x) == ssa.Value(prefix) {
+			return core.Iff(false)
+		}
+		return 0, 0
+	}}
+	found := &core.Atom{Name: "node-found", Match: func(cond ssa.Value) (int, int) {
+		op, x, y, ok := core.Cmp(cond)
+		if !ok || (op != token.EQL && op != token.NEQ) {
+			return 0, 0
+		}
+		if core.IsNilConst(x) {
+			x, y = y, x
+		}
+		if !core.IsNilConst(y) || core.Strip(x) != ssa.Value(look) {
+			return 0, 0
+		}
+		return core.Iff(op == token.NEQ)
+	}}
+	cut, _ := core.CutEdges(fn, core.Lit{A: notPrefix, Want: false}, core.Lit{A: found, Want: false})
+	fr := core.MustFollowCut(fn, core.After(look), isDescend, nil, cut)
+	c.Decide(fr.OK, "R15.14", "memory-prefix-get-descends-to-newest", c.Pos(look), "every path of a prefix query that found a node passes through the descent to the newest packet below it", "MemoryStore.Get answers a prefix query without descending to the newest packet below the node it found on some path (the descent also depends on something else than the query and the node existing, e.g. on a packet being stored at the prefix itself): once a packet is stored under the queried prefix, newer versions below it are never served, while BoltStore serves them"+func() string {
+		if fr.Exit != nil {
+			return "; exit at " + c.Pos(fr.Exit) + " path " + c.P.PathString(fr.Path)
+		}
+		return ""
+	}())
 }
 
 // c15BoltScan — R15.12 "the newest version, whether from the in-memory or the on-disk
@@ -1024,6 +1106,422 @@ func c15BoltScan(c *core.Ctx) {
 // client's channels) never makes a blocking send on one of the channels that only it
 // receives from, in anything it calls synchronously: once that channel is full the
 // goroutine waits for itself, and no pending Consume ever completes.
+// c15FuncValues resolves a called function value to the functions of the package it can
+// stand for: a closure, a parameter (the arguments at the package's call sites of the
+// enclosing function), a captured variable (what the parent stored in the cell).
+func c15FuncValues(p *core.Prog, pkg string, v ssa.Value, depth int) []*ssa.Function {
+	if depth == 0 {
+		return nil
+	}
+	var out []*ssa.Function
+	switch x := core.Strip(v).(type) {
+	case *ssa.Function:
+		out = append(out, x)
+	case *ssa.MakeClosure:
+		if fn, ok := x.Fn.(*ssa.Function); ok {
+			out = append(out, fn)
+		}
+	case *ssa.ChangeType:
+		out = append(out, c15FuncValues(p, pkg, x.X, depth)...)
+	case *ssa.Phi:
+		for _, e := range x.Edges {
+			out = append(out, c15FuncValues(p, pkg, e, depth-1)...)
+		}
+	case *ssa.Parameter:
+		g := x.Parent()
+		idx := -1
+		for i, pr := range g.Params {
+			if pr == x {
+				idx = i
+			}
+		}
+		if idx < 0 {
+			return nil
+		}
+		for _, caller := range p.FuncsIn(pkg) {
+			core.Instrs(caller, func(in ssa.Instruction) {
+				ci, ok := in.(ssa.CallInstruction)
+				if !ok || ci.Common().StaticCallee() != g || idx >= len(ci.Common().Args) {
+					return
+				}
+				out = append(out, c15FuncValues(p, pkg, ci.Common().Args[idx], depth-1)...)
+			})
+		}
+	case *ssa.FreeVar:
+		out = append(out, c15FuncValues(p, pkg, c15Binding(x), depth-1)...)
+	case *ssa.UnOp:
+		if x.Op != token.MUL {
+			return nil
+		}
+		cell := core.Strip(x.X)
+		if fv, ok := cell.(*ssa.FreeVar); ok {
+			cell = c15Binding(fv)
+		}
+		switch al := cell.(type) {
+		case *ssa.Alloc:
+			for _, r := range *al.Referrers() {
+				if st, ok := r.(*ssa.Store); ok && st.Addr == al {
+					out = append(out, c15FuncValues(p, pkg, st.Val, depth-1)...)
+				}
+			}
+		case *ssa.FieldAddr:
+			// a field of a captured or local struct: what the package stores in that field
+			tn, fname := core.FieldAddrName(al)
+			for _, w := range p.FuncsIn(pkg) {
+				core.Instrs(w, func(in ssa.Instruction) {
+					st, ok := in.(*ssa.Store)
+					if !ok {
+						return
+					}
+					fa, ok := st.Addr.(*ssa.FieldAddr)
+					if !ok {
+						return
+					}
+					if t2, f2 := core.FieldAddrName(fa); t2 == tn && f2 == fname {
+						out = append(out, c15FuncValues(p, pkg, st.Val, depth-1)...)
+					}
+				})
+			}
+		}
+	}
+	return out
+}
+
+// c15Binding gives the value the parent bound to a closure's free variable.
+func c15Binding(fv *ssa.FreeVar) ssa.Value {
+	g := fv.Parent()
+	idx := -1
+	for i, f := range g.FreeVars {
+		if f == fv {
+			idx = i
+		}
+	}
+	if idx < 0 || g.Parent() == nil {
+		return nil
+	}
+	var b ssa.Value
+	core.Instrs(g.Parent(), func(in ssa.Instruction) {
+		if mc, ok := in.(*ssa.MakeClosure); ok && mc.Fn == g && idx < len(mc.Bindings) {
+			b = mc.Bindings[idx]
+		}
+	})
+	return b
+}
+
+// c15IsParam: v is the parameter, or a load of the cell the parameter was spilled to because a
+// closure captures it (the cell is written once, by the spill; closures only read it).
+func c15IsParam(v ssa.Value, prm *ssa.Parameter) bool {
+	v = core.Strip(v)
+	if v == ssa.Value(prm) {
+		return true
+	}
+	ld, ok := v.(*ssa.UnOp)
+	if !ok || ld.Op != token.MUL {
+		return false
+	}
+	al, ok := ld.X.(*ssa.Alloc)
+	if !ok {
+		return false
+	}
+	n := 0
+	for _, r := range *al.Referrers() {
+		switch x := r.(type) {
+		case *ssa.Store:
+			if x.Addr != ssa.Value(al) || x.Val != ssa.Value(prm) {
+				return false
+			}
+			n++
+		case *ssa.MakeClosure:
+			fn, _ := x.Fn.(*ssa.Function)
+			for bi, b := range x.Bindings {
+				if b != ssa.Value(al) || fn == nil || bi >= len(fn.FreeVars) {
+					continue
+				}
+				for _, r2 := range *fn.FreeVars[bi].Referrers() {
+					if st, ok := r2.(*ssa.Store); ok && st.Addr == ssa.Value(fn.FreeVars[bi]) {
+						return false
+					}
+					if _, ok := r2.(*ssa.MakeClosure); ok {
+						return false
+					}
+				}
+			}
+		case *ssa.UnOp, *ssa.DebugRef:
+		default:
+			return false
+		}
+	}
+	return n == 1
+}
+
+// c15EdgeRefused: the call cl inside g is taken only while a field of one of g's parameters
+// is nil (every path to it leaves a test of that field on the nil side), and the call that
+// entered g handed in, for that parameter, a record in whose field the caller had just put a
+// value it had already dereferenced — not nil, or the caller would have stopped before the
+// call. In that context g never makes the call cl.
+func c15EdgeRefused(g *ssa.Function, cl *ssa.Call, by *ssa.Call) bool {
+	if by.Call.StaticCallee() != g {
+		return false
+	}
+	h := by.Parent()
+	for i, prm := range g.Params {
+		if i >= len(by.Call.Args) {
+			break
+		}
+		pt, ok := prm.Type().Underlying().(*types.Pointer)
+		if !ok {
+			continue
+		}
+		st, ok := pt.Elem().Underlying().(*types.Struct)
+		if !ok {
+			continue
+		}
+		// fields of the parameter that g tests against nil
+		fields := map[int]bool{}
+		written := map[int]bool{}
+		core.Instrs(g, func(in ssa.Instruction) {
+			if fa, ok := in.(*ssa.FieldAddr); ok && c15IsParam(fa.X, prm) {
+				for _, r := range *fa.Referrers() {
+					if s, ok := r.(*ssa.Store); ok && s.Addr == ssa.Value(fa) {
+						written[fa.Field] = true
+					}
+				}
+				fields[fa.Field] = true
+			}
+		})
+		for fi := range fields {
+			if written[fi] {
+				continue
+			}
+			atom := &core.Atom{Name: "field-not-nil", Match: func(cond ssa.Value) (int, int) {
+				op, x, y, ok := core.Cmp(cond)
+				if !ok || (op != token.EQL && op != token.NEQ) {
+					return 0, 0
+				}
+				if core.IsNilConst(x) {
+					x, y = y, x
+				}
+				if !core.IsNilConst(y) {
+					return 0, 0
+				}
+				ld, ok := core.Strip(x).(*ssa.UnOp)
+				if !ok || ld.Op != token.MUL {
+					return 0, 0
+				}
+				fa, ok := ld.X.(*ssa.FieldAddr)
+				if !ok || fa.Field != fi || !c15IsParam(fa.X, prm) {
+					return 0, 0
+				}
+				return core.Iff(op == token.NEQ)
+			}}
+			res := core.Gate(g, []ssa.Instruction{cl}, core.Lit{A: atom, Want: false})
+			if !res.OK || res.PassEdges == 0 {
+				continue
+			}
+			// the entering caller: a store into that field of the argument, of a value it
+			// dereferences, both before the call on every path
+			arg := core.Strip(by.Call.Args[i])
+			var stored ssa.Value
+			isStore := func(in ssa.Instruction) bool {
+				s, ok := in.(*ssa.Store)
+				if !ok {
+					return false
+				}
+				fa, ok := s.Addr.(*ssa.FieldAddr)
+				if !ok || fa.Field != fi || !core.Same(fa.X, arg) {
+					return false
+				}
+				if t, ok := fa.X.Type().Underlying().(*types.Pointer); !ok || !types.Identical(t.Elem().Underlying(), st) {
+					return false
+				}
+				stored = s.Val
+				return true
+			}
+			if !core.Precedes(h, by, isStore) || stored == nil || core.IsNilConst(stored) {
+				continue
+			}
+			v := core.Strip(stored)
+			if _, ok := v.(*ssa.Alloc); ok {
+				return true
+			}
+			isDeref := func(in ssa.Instruction) bool {
+				switch x := in.(type) {
+				case *ssa.FieldAddr:
+					return core.Same(x.X, v)
+				case *ssa.UnOp:
+					return x.Op == token.MUL && core.Same(x.X, v)
+				}
+				return false
+			}
+			if core.Precedes(h, by, isDeref) {
+				return true
+			}
+		}
+	}
+	return false
+}
+
+// c15CallbacksDoNotBlock — R15.13: the engine runs the callback of an expressed Interest with
+// its PIT lock held, and one Data can resolve any number of pending Interests in one pass. A
+// callback that makes a blocking send on a channel whose reader (the client goroutine) needs
+// that lock to express its next Interest waits for ever once the channel is full: with more
+// than a channel's worth of consumers of one object none of them ever completes. Every
+// function that becomes an ndn.ExpressCallbackFunc in std/object — and what it calls
+// synchronously — makes no blocking channel send.
+func c15CallbacksDoNotBlock(c *core.Ctx, pkg string) {
+	p := c.P
+	isCbType := func(t types.Type) bool {
+		n, ok := t.(*types.Named)
+		return ok && n.Obj().Name() == "ExpressCallbackFunc"
+	}
+	cbs := map[*ssa.Function]string{}
+	note := func(v ssa.Value, at ssa.Instruction) {
+		switch x := core.Strip(v).(type) {
+		case *ssa.MakeClosure:
+			if fn, ok := x.Fn.(*ssa.Function); ok {
+				cbs[fn] = c.Pos(at)
+			}
+		case *ssa.Function:
+			cbs[x] = c.Pos(at)
+		case *ssa.ChangeType:
+			if mc, ok := core.Strip(x.X).(*ssa.MakeClosure); ok {
+				if fn, ok2 := mc.Fn.(*ssa.Function); ok2 {
+					cbs[fn] = c.Pos(at)
+				}
+			}
+		}
+	}
+	for _, fn := range p.FuncsIn(pkg) {
+		if strings.HasSuffix(p.File(fn.Pos()), "_test.go") {
+			continue
+		}
+		core.Instrs(fn, func(in ssa.Instruction) {
+			switch x := in.(type) {
+			case *ssa.ChangeType:
+				if isCbType(x.Type()) {
+					note(x.X, in)
+				}
+			case *ssa.Store:
+				if pt, ok := x.Addr.Type().Underlying().(*types.Pointer); ok && isCbType(pt.Elem()) {
+					note(x.Val, in)
+				}
+			case ssa.CallInstruction:
+				sig := x.Common().Signature()
+				off := 0
+				if x.Common().IsInvoke() {
+					off = 0
+				} else if sig.Recv() != nil {
+					off = 1
+				}
+				for i, a := range x.Common().Args {
+					pi := i - off
+					if pi >= 0 && pi < sig.Params().Len() && isCbType(sig.Params().At(pi).Type()) {
+						note(a, in)
+					}
+				}
+			}
+		})
+	}
+	var fns []*ssa.Function
+	for f := range cbs {
+		fns = append(fns, f)
+	}
+	sort.Slice(fns, func(i, j int) bool { return core.FuncName(fns[i]) < core.FuncName(fns[j]) })
+	for _, cb := range fns {
+		// a function is visited once per call that enters it: whether one of its calls can be
+		// taken may depend on what the entering caller established (c15EdgeRefused)
+		type ent struct {
+			fn *ssa.Function
+			by *ssa.Call
+		}
+		reach := map[*ssa.Function]bool{cb: true}
+		seen := map[ent]bool{{cb, nil}: true}
+		via := map[*ssa.Function]*ssa.Function{}
+		work := []ent{{cb, nil}}
+		for len(work) > 0 {
+			e := work[len(work)-1]
+			g := e.fn
+			work = work[:len(work)-1]
+			push := func(t *ssa.Function, by *ssa.Call) {
+				if t.Blocks == nil || seen[ent{t, by}] {
+					return
+				}
+				seen[ent{t, by}] = true
+				if !reach[t] {
+					reach[t] = true
+					via[t] = g
+				}
+				work = append(work, ent{t, by})
+			}
+			core.Instrs(g, func(in ssa.Instruction) {
+				cl, ok := in.(*ssa.Call)
+				if !ok {
+					return
+				}
+				cal := cl.Call.StaticCallee()
+				if cal == nil && !cl.Call.IsInvoke() {
+					// a function value: the closures the package hands in for it
+					for _, t := range c15FuncValues(p, pkg, cl.Call.Value, 4) {
+						push(t, nil)
+					}
+					return
+				}
+				if cal == nil || cal.Blocks == nil {
+					return
+				}
+				path := ""
+				if cal.Pkg != nil {
+					path = cal.Pkg.Pkg.Path()
+				} else if cal.Origin() != nil && cal.Origin().Pkg != nil {
+					path = cal.Origin().Pkg.Pkg.Path()
+				}
+				if path != pkg {
+					return
+				}
+				if e.by != nil && c15EdgeRefused(g, cl, e.by) {
+					return
+				}
+				push(cal, cl)
+			})
+		}
+		bad := ""
+		var rs []*ssa.Function
+		for g := range reach {
+			rs = append(rs, g)
+		}
+		sort.Slice(rs, func(i, j int) bool { return core.FuncName(rs[i]) < core.FuncName(rs[j]) })
+		for _, g := range rs {
+			core.Instrs(g, func(in ssa.Instruction) {
+				blocking := false
+				switch x := in.(type) {
+				case *ssa.Send:
+					blocking = true
+				case *ssa.Select:
+					if x.Blocking {
+						for _, st := range x.States {
+							if st.Dir == types.SendOnly {
+								blocking = true
+							}
+						}
+					}
+				}
+				if blocking {
+					chain := core.FuncName(g)
+					for h := via[g]; h != nil; h = via[h] {
+						chain = core.FuncName(h) + " → " + chain
+					}
+					if bad != "" {
+						bad += "; "
+					}
+					bad += fmt.Sprintf("blocking send at %s (%s)", c.Pos(in), chain)
+				}
+			})
+		}
+		c.Decide(bad == "", "R15.13", "engine-callback-does-not-block:"+core.FuncName(cb), cbs[cb], fmt.Sprintf("no blocking channel send in the %d functions the callback runs", len(reach)), "a callback the engine runs with its PIT lock held makes a "+bad+": the client goroutine that reads that channel needs the same lock to express its next Interest, so once the channel is full (more consumers of one object than it has room for) the callback waits for ever with the lock held and no Consume ever completes")
+	}
+	c.Floor("R15.13", "functions that become engine callbacks in std/object", len(fns), 2)
+}
+
 func c15SelfSend(c *core.Ctx, pkg string) {
 	p := c.P
 	nLoops := 0
